@@ -1,10 +1,11 @@
-//! C08: Dfs, DfsPostOrder, Bfs, Topo, depth_first_search on every graph type and two adaptors.
+//! C08 / C09: traversals and the basic algorithms of petgraph::algo on every graph type and two adaptors.
 use crate::enc::*;
 use crate::rng::Rng;
 use crate::{line, GOp, Out};
+use petgraph::algo::{self, DfsSpace, TarjanScc};
 use petgraph::visit::{
-    depth_first_search, Bfs, Control, Dfs, DfsEvent, DfsPostOrder, EdgeCount, EdgeIndexable, EdgeRef, GraphRef, IntoNeighbors,
-    IntoNeighborsDirected, IntoNodeIdentifiers, NodeFiltered, NodeIndexable, Reversed, Topo, Visitable,
+    depth_first_search, Bfs, Control, Dfs, DfsEvent, DfsPostOrder, EdgeCount, EdgeIndexable, EdgeRef, GraphRef, IntoEdgeReferences,
+    IntoNeighbors, IntoNeighborsDirected, IntoNodeIdentifiers, NodeCompactIndexable, NodeFiltered, NodeIndexable, Reversed, Topo, Visitable,
 };
 use petgraph::{Directed, Undirected};
 use std::panic::{catch_unwind, AssertUnwindSafe};
@@ -13,7 +14,7 @@ fn seq(v: Vec<usize>) -> String { line("seq", &v.iter().map(|x| *x as i64).colle
 
 /// queries that need only IntoNeighbors + Visitable
 fn query_nb<G>(g: G, q: &GOp) -> Option<String>
-where G: GraphRef + IntoNeighbors + Visitable + NodeIndexable {
+where G: GraphRef + IntoNeighbors + Visitable + NodeIndexable, G::NodeId: std::fmt::Debug {
     let a = &q.1;
     let n = |i: i64| g.from_index(i as usize);
     Some(match q.0.as_str() {
@@ -64,6 +65,66 @@ where G: GraphRef + IntoNeighbors + Visitable + NodeIndexable {
             let mut v = vec![brk]; v.extend(evs);
             line("events", &v)
         }
+        "has_path" => line("bool", &[algo::has_path_connecting(g, n(a[0]), n(a[1]), None) as i64]),
+        "bipartite" => line("bool", &[algo::is_bipartite_undirected(g, n(a[0])) as i64]),
+        _ => return None,
+    })
+}
+
+fn comps<G: NodeIndexable>(g: G, sccs: &[Vec<G::NodeId>]) -> Vec<String> {
+    let mut v = vec![line("nat", &[sccs.len() as i64])];
+    for c in sccs { v.push(line("comp", &c.iter().map(|x| g.to_index(*x) as i64).collect::<Vec<_>>())); }
+    v
+}
+
+/// queries over node_identifiers + neighbors (+ NodeIndexable): is_cyclic_directed, tarjan
+fn query_ids<G>(g: G, q: &GOp) -> Option<Vec<String>>
+where G: GraphRef + IntoNeighbors + IntoNodeIdentifiers + Visitable + NodeIndexable {
+    Some(match q.0.as_str() {
+        "is_cyclic_directed" => vec![line("bool", &[algo::is_cyclic_directed(g) as i64])],
+        "tarjan" => {
+            let mut sccs = Vec::new();
+            let mut t = TarjanScc::new();
+            t.run(g, |scc| sccs.push(scc.to_vec()));
+            let mut v = comps(g, &sccs);
+            if algo::tarjan_scc(g).iter().map(|c| c.iter().map(|x| g.to_index(*x)).collect::<Vec<_>>()).collect::<Vec<_>>()
+                != sccs.iter().map(|c| c.iter().map(|x| g.to_index(*x)).collect::<Vec<_>>()).collect::<Vec<_>>() { v.push("tarjan_scc-vs-run-mismatch".into()); }
+            let mut ci = Vec::new();
+            for x in g.node_identifiers() { ci.push(g.to_index(x) as i64); ci.push(t.node_component_index(g, x) as i64); }
+            v.push(line("cidx", &ci));
+            v
+        }
+        _ => return None,
+    })
+}
+
+/// queries over edge_references: is_cyclic_undirected
+fn query_er<G>(g: G, q: &GOp) -> Option<Vec<String>>
+where G: GraphRef + IntoEdgeReferences + NodeIndexable {
+    Some(match q.0.as_str() {
+        "is_cyclic_undirected" => vec![line("bool", &[algo::is_cyclic_undirected(g) as i64])],
+        _ => return None,
+    })
+}
+
+fn query_compact<G>(g: G, q: &GOp) -> Option<Vec<String>>
+where G: GraphRef + IntoEdgeReferences + NodeCompactIndexable {
+    Some(match q.0.as_str() {
+        "connected_components" => vec![line("nat", &[algo::connected_components(g) as i64])],
+        _ => return None,
+    })
+}
+
+fn query_dir2<G>(g: G, q: &GOp) -> Option<Vec<String>>
+where G: GraphRef + IntoNeighborsDirected + IntoNodeIdentifiers + Visitable + NodeIndexable {
+    let topo = |r: Result<Vec<G::NodeId>, algo::Cycle<G::NodeId>>| match r {
+        Ok(l) => line("seq", &l.iter().map(|x| g.to_index(*x) as i64).collect::<Vec<_>>()),
+        Err(c) => line("cycle", &[g.to_index(c.node_id()) as i64]),
+    };
+    Some(match q.0.as_str() {
+        "toposort" => vec![topo(algo::toposort(g, None))],
+        "toposort2" => { let mut sp = DfsSpace::new(g); let a = topo(algo::toposort(g, Some(&mut sp))); let b = topo(algo::toposort(g, Some(&mut sp))); vec![a, b] }
+        "kosaraju" => comps(g, &algo::kosaraju_scc(g)),
         _ => return None,
     })
 }
@@ -81,16 +142,31 @@ where G: GraphRef + IntoNeighborsDirected + IntoNodeIdentifiers + Visitable + No
     })
 }
 
-fn gen_queries(r: &mut Rng, ids: &[usize], bound: usize, directed_traits: bool) -> Vec<GOp> {
+fn gen_queries(stream: &str, r: &mut Rng, ids: &[usize], bound: usize, directed_traits: bool, compact: bool) -> Vec<GOp> {
     let mut qs: Vec<GOp> = Vec::new();
+    let pick = |r: &mut Rng| -> i64 { if ids.is_empty() { 0 } else if r.chance(94) || bound == 0 { ids[r.below(ids.len())] as i64 } else { r.below(bound) as i64 } };
+    if stream == "C09" {
+        if compact { qs.push(("connected_components".into(), vec![])); }
+        qs.push(("is_cyclic_undirected".into(), vec![]));
+        qs.push(("is_cyclic_directed".into(), vec![]));
+        qs.push(("tarjan".into(), vec![]));
+        if directed_traits {
+            qs.push((if r.chance(50) { "toposort" } else { "toposort2" }.into(), vec![]));
+            qs.push(("kosaraju".into(), vec![]));
+        }
+        if !ids.is_empty() {
+            for _ in 0..2 + r.below(3) { qs.push(("has_path".into(), vec![pick(r), pick(r)])); }
+            qs.push(("bipartite".into(), vec![pick(r)]));
+        }
+        return qs;
+    }
     if ids.is_empty() { if directed_traits { qs.push(("topo".into(), vec![])); } return qs; }
-    let pick = |r: &mut Rng| -> i64 { if r.chance(94) || bound == 0 { ids[r.below(ids.len())] as i64 } else { r.below(bound) as i64 } };
     for _ in 0..3 + r.below(5) {
         match r.below(if directed_traits { 9 } else { 7 }) {
             0 => qs.push(("dfs".into(), vec![pick(r)])),
             1 => qs.push(("dfs_moveto".into(), vec![pick(r), r.below(4) as i64, pick(r)])),
             2 => qs.push(("dfs_reset".into(), vec![pick(r), pick(r)])),
-            3 => qs.push((if r.chance(70) { "dfspost" } else { "dfspost_moveto" }.into(), if r.chance(70) { vec![pick(r)] } else { vec![pick(r), pick(r)] })),
+            3 => { if r.chance(70) { qs.push(("dfspost".into(), vec![pick(r)])) } else { qs.push(("dfspost_moveto".into(), vec![pick(r), pick(r)])) } }
             4 => qs.push(("bfs".into(), vec![pick(r)])),
             5 | 6 => {
                 let ns = 1 + r.below(3);
@@ -104,82 +180,88 @@ fn gen_queries(r: &mut Rng, ids: &[usize], bound: usize, directed_traits: bool) 
             _ => { let k = 1 + r.below(3); qs.push(("topo_with_initials".into(), (0..k).map(|_| pick(r)).collect())); }
         }
     }
-    // fix up: dfspost with two args must be dfspost_moveto
-    for q in qs.iter_mut() { if q.0 == "dfspost" && q.1.len() == 2 { q.0 = "dfspost_moveto".into(); } if q.0 == "dfspost_moveto" && q.1.len() == 1 { q.0 = "dfspost".into(); } }
     qs
 }
 
-fn answer(out: &mut Out, q: &GOp, r: std::thread::Result<Option<String>>) {
+fn answer(out: &mut Out, q: &GOp, r: std::thread::Result<Option<Vec<String>>>) {
     out.op(q);
-    match r { Ok(Some(s)) => out.obs_lines(&[s]), Ok(None) => out.obs_lines(&["unsupported".to_string()]), Err(_) => out.obs_lines(&["panic".to_string()]) }
+    match r { Ok(Some(s)) => out.obs_lines(&s), Ok(None) => out.obs_lines(&["unsupported".to_string()]), Err(_) => out.obs_lines(&["panic".to_string()]) }
 }
 
 macro_rules! run_both {
-    ($g:expr, $eid:expr, $ecount:expr, $ebound:expr, $id:expr, $enc:expr, $r:expr, $out:expr, $fixed:expr) => {{
+    ($stream:expr, $g:expr, $eid:expr, $ecount:expr, $ebound:expr, $id:expr, $enc:expr, $r:expr, $out:expr, $compact:tt) => {{
         let g = $g;
         let (hdr, ops) = dump_view(g, $eid, $ecount, $ebound, &[$enc as i64]);
         emit_view($out, $id, &hdr, &ops);
         let ids: Vec<usize> = g.node_identifiers().map(|x| NodeIndexable::to_index(&g, x)).collect();
-        let qs: Vec<GOp> = match $fixed { Some(q) => q, None => gen_queries($r, &ids, NodeIndexable::node_bound(&g), true) };
+        let qs: Vec<GOp> = gen_queries($stream, $r, &ids, NodeIndexable::node_bound(&g), true, $compact);
         for q in &qs {
-            let res = catch_unwind(AssertUnwindSafe(|| query_nb(g, q).or_else(|| query_dir(g, q))));
+            let res = catch_unwind(AssertUnwindSafe(|| {
+                query_nb(g, q).map(|s| vec![s]).or_else(|| query_dir(g, q).map(|s| vec![s]))
+                    .or_else(|| query_ids(g, q)).or_else(|| query_er(g, q)).or_else(|| query_dir2(g, q))
+                    .or_else(|| compact_q!($compact, g, q))
+            }));
             answer($out, q, res);
         }
         $out.end_case();
     }};
 }
 macro_rules! run_out_only {
-    ($g:expr, $eid:expr, $ecount:expr, $ebound:expr, $id:expr, $enc:expr, $r:expr, $out:expr, $fixed:expr) => {{
+    ($stream:expr, $g:expr, $eid:expr, $ecount:expr, $ebound:expr, $id:expr, $enc:expr, $r:expr, $out:expr, $compact:tt) => {{
         let g = $g;
         let (hdr, ops) = dump_view_out(g, $eid, $ecount, $ebound, &[$enc as i64]);
         emit_view($out, $id, &hdr, &ops);
         let ids: Vec<usize> = g.node_identifiers().map(|x| NodeIndexable::to_index(&g, x)).collect();
-        let qs: Vec<GOp> = match $fixed { Some(q) => q, None => gen_queries($r, &ids, NodeIndexable::node_bound(&g), false) };
+        let qs: Vec<GOp> = gen_queries($stream, $r, &ids, NodeIndexable::node_bound(&g), false, $compact);
         for q in &qs {
-            let res = catch_unwind(AssertUnwindSafe(|| query_nb(g, q)));
+            let res = catch_unwind(AssertUnwindSafe(|| {
+                query_nb(g, q).map(|s| vec![s]).or_else(|| query_ids(g, q)).or_else(|| query_er(g, q))
+                    .or_else(|| compact_q!($compact, g, q))
+            }));
             answer($out, q, res);
         }
         $out.end_case();
     }};
 }
+macro_rules! compact_q {
+    (true, $g:expr, $q:expr) => { query_compact($g, $q) };
+    (false, $g:expr, $q:expr) => { None::<Vec<String>> };
+}
 
-/// Build encoding `enc` of `a` and run the traversal queries on it.
-pub fn run_enc(id: usize, a: &AbsGraph, enc: usize, r: &mut Rng, out: &mut Out, fixed: Option<Vec<GOp>>) {
+/// Build encoding `enc` of `a` and run the stream's queries on it.
+pub fn run_enc(stream: &str, id: usize, a: &AbsGraph, enc: usize, r: &mut Rng, out: &mut Out) {
     macro_rules! ty { ($f:ident, $d:ty, $u:ty) => { if a.directed { $f!($d) } else { $f!($u) } }; }
     match enc {
-        0 => { macro_rules! go { ($t:ty) => {{ let g = build_graph::<$t, u32>(a, r); run_both!(&g, |e| e.id().index(), g.edge_count(), g.edge_bound(), id, enc, r, out, fixed) }}; } ty!(go, Directed, Undirected) }
-        1 => { macro_rules! go { ($t:ty) => {{ let g = build_graph::<$t, u8>(a, r); run_both!(&g, |e| e.id().index(), g.edge_count(), g.edge_bound(), id, enc, r, out, fixed) }}; } ty!(go, Directed, Undirected) }
-        2 => { macro_rules! go { ($t:ty) => {{ let g = build_stable::<$t, u32>(a, r); run_both!(&g, |e| e.id().index(), g.edge_count(), g.edge_bound(), id, enc, r, out, fixed) }}; } ty!(go, Directed, Undirected) }
-        3 => { macro_rules! go { ($t:ty) => {{ let g = build_graphmap::<$t>(a, r); run_both!(&g, |e| { let (s, t) = e.id(); g.all_edges().position(|(x, y, _)| (x, y) == (s, t) || (!a.directed && (x, y) == (t, s))).unwrap_or(9999) }, g.edge_count(), EdgeIndexable::edge_bound(&g), id, enc, r, out, fixed) }}; } ty!(go, Directed, Undirected) }
-        4 => { macro_rules! go { ($t:ty) => {{ let g = build_csr::<$t, u32>(a, r); run_out_only!(&g, |e| e.id(), EdgeCount::edge_count(&g), 0, id, enc, r, out, fixed) }}; } ty!(go, Directed, Undirected) }
-        5 => { let g = build_list::<u32>(a, r); run_out_only!(&g, |_e| 0, EdgeCount::edge_count(&g), 0, id, enc, r, out, fixed) }
+        0 => { macro_rules! go { ($t:ty) => {{ let g = build_graph::<$t, u32>(a, r); run_both!(stream, &g, |e| e.id().index(), g.edge_count(), g.edge_bound(), id, enc, r, out, true) }}; } ty!(go, Directed, Undirected) }
+        1 => { macro_rules! go { ($t:ty) => {{ let g = build_graph::<$t, u8>(a, r); run_both!(stream, &g, |e| e.id().index(), g.edge_count(), g.edge_bound(), id, enc, r, out, true) }}; } ty!(go, Directed, Undirected) }
+        2 => { macro_rules! go { ($t:ty) => {{ let g = build_stable::<$t, u32>(a, r); run_both!(stream, &g, |e| e.id().index(), g.edge_count(), g.edge_bound(), id, enc, r, out, false) }}; } ty!(go, Directed, Undirected) }
+        3 => { macro_rules! go { ($t:ty) => {{ let g = build_graphmap::<$t>(a, r); run_both!(stream, &g, |e| { let (s, t) = e.id(); g.all_edges().position(|(x, y, _)| (x, y) == (s, t) || (!a.directed && (x, y) == (t, s))).unwrap_or(9999) }, g.edge_count(), EdgeIndexable::edge_bound(&g), id, enc, r, out, true) }}; } ty!(go, Directed, Undirected) }
+        4 => { macro_rules! go { ($t:ty) => {{ let g = build_csr::<$t, u32>(a, r); run_out_only!(stream, &g, |e| e.id(), EdgeCount::edge_count(&g), 0, id, enc, r, out, true) }}; } ty!(go, Directed, Undirected) }
+        5 => { let g = build_list::<u32>(a, r); run_out_only!(stream, &g, |_e| 0, EdgeCount::edge_count(&g), 0, id, enc, r, out, true) }
         6 => {
-            if a.directed { let g = build_matrix::<Directed, u16>(a, r); run_both!(&g, |_e| 0, g.edge_count(), 0, id, enc, r, out, fixed) }
-            else { let g = build_matrix::<Undirected, u16>(a, r); run_out_only!(&g, |_e| 0, g.edge_count(), 0, id, enc, r, out, fixed) }
+            if a.directed { let g = build_matrix::<Directed, u16>(a, r); run_both!(stream, &g, |_e| 0, g.edge_count(), 0, id, enc, r, out, false) }
+            else { let g = build_matrix::<Undirected, u16>(a, r); run_out_only!(stream, &g, |_e| 0, g.edge_count(), 0, id, enc, r, out, false) }
         }
-        7 => { macro_rules! go { ($t:ty) => {{ let g0 = build_graph::<$t, u32>(a, r); let g = Reversed(&g0); run_both!(g, |e| e.id().index(), g0.edge_count(), g0.edge_bound(), id, enc, r, out, fixed) }}; } ty!(go, Directed, Undirected) }
+        7 => { macro_rules! go { ($t:ty) => {{ let g0 = build_graph::<$t, u32>(a, r); let g = Reversed(&g0); run_both!(stream, g, |e| e.id().index(), g0.edge_count(), g0.edge_bound(), id, enc, r, out, true) }}; } ty!(go, Directed, Undirected) }
         _ => { macro_rules! go { ($t:ty) => {{
                    let g0 = build_graph::<$t, u32>(a, r);
                    let mask = r.next();
                    let g = NodeFiltered::from_fn(&g0, move |n: petgraph::graph::NodeIndex<u32>| (mask >> (n.index() % 60)) & 3 != 0);
-                   run_both!(&g, |e| e.id().index(), g0.edge_count(), g0.edge_bound(), id, enc, r, out, fixed) }}; } ty!(go, Directed, Undirected) }
+                   run_both!(stream, &g, |e| e.id().index(), g0.edge_count(), g0.edge_bound(), id, enc, r, out, false) }}; } ty!(go, Directed, Undirected) }
     }
     out.stat(&format!("enc_{}", enc));
 }
 
-pub fn gen(seed: u64, n: usize, out: &mut Out) {
-    let mut r = Rng::new(seed ^ 0xC08);
+pub fn gen(stream: &str, seed: u64, n: usize, out: &mut Out) {
+    let mut r = Rng::new(seed ^ if stream == "C09" { 0xC09 } else { 0xC08 });
     for id in 0..n {
         let simple = r.chance(40);
-        let a = gen_abs(&mut r, 9, simple, true, 0, 20);
+        let nmax = if stream == "C09" { 10 } else { 9 };
+        let a = gen_abs(&mut r, nmax, simple, true, 0, 20);
         let mut enc = r.below(9);
         let ok = match enc { 7 | 8 => true, e => enc_ok(e, &a, false) };
         if !ok { enc = r.below(3); }
         out.stat(if a.directed { "abs_directed" } else { "abs_undirected" });
-        run_enc(id, &a, enc, &mut r, out, None);
+        run_enc(stream, id, &a, enc, &mut r, out);
     }
 }
-
-/// replay: the case file carries the view, not the abstract graph; rebuild a plain Graph with the same
-/// adjacency lists is not possible in general, so a replay re-runs the generator at the recorded seed instead.
-pub fn replay(_text: &str, _out: &mut Out) {}
